@@ -13,6 +13,7 @@ let () =
    | "sched" -> R_sched.run path
    | "stripe" -> R_stripe.run path
    | "tbl" -> R_tbl.run path
+   | "adder" -> R_adder.run path
    | _ -> prerr_endline ("unknown engine " ^ engine); exit 2);
   Util.print_stats ();
   Printf.printf "RESULT mismatches=%d propfails=%d\n" !Util.mismatches !Util.propfails
